@@ -7,7 +7,7 @@ CONSTANTS
   BO = 3
   IVALS <- IvOne
   ASIS = {"cancel"}
-  ENV = {"flip", "expire", "stop"}
+  ENV = {"flip", "stop"}
 INVARIANT Inv
 PROPERTY Live
 CHECK_DEADLOCK FALSE
